@@ -1,0 +1,81 @@
+// Verification hooks. Compiled only with the off-by-default cargo
+// feature `verif_hooks`; none of this exists in a normal build.
+
+//! Failpoints for runtime verification.
+//!
+//! A failpoint is a named place in the code where a verification
+//! harness may run a callback (to sleep, yield, swap shared state, or
+//! record an event). With no callback installed a failpoint only bumps
+//! its hit counter.
+//!
+//! The registry deliberately uses nothing but relaxed atomics (plus
+//! one acquire load of a pointer that is published once), so that it
+//! does not introduce happens-before edges between the threads of the
+//! code under test: a race detector must still see the races that the
+//! uninstrumented code has.
+
+use std::sync::atomic::{AtomicPtr, AtomicU64, Ordering};
+
+/// The names of all failpoints, indexed by failpoint ID.
+pub const FAILPOINT_NAMES: [&str; 8] = [
+    "pool.submit.accepted",
+    "pool.submit_or_spawn.accepted",
+    "pool.worker.loop_top",
+    "pool.worker.timed_out",
+    "pool.aux.started",
+    "group.end_thread",
+    "server.after_catalog_snapshot",
+    "server.before_dispatch",
+];
+
+pub const POOL_SUBMIT_ACCEPTED: usize = 0;
+pub const POOL_SUBMIT_OR_SPAWN_ACCEPTED: usize = 1;
+pub const POOL_WORKER_LOOP_TOP: usize = 2;
+pub const POOL_WORKER_TIMED_OUT: usize = 3;
+pub const POOL_AUX_STARTED: usize = 4;
+pub const GROUP_END_THREAD: usize = 5;
+pub const SERVER_AFTER_CATALOG_SNAPSHOT: usize = 6;
+pub const SERVER_BEFORE_DISPATCH: usize = 7;
+
+type Callback = Box<dyn Fn(usize) + Send + Sync + 'static>;
+
+#[allow(clippy::declare_interior_mutable_const)]
+const ZERO: AtomicU64 = AtomicU64::new(0);
+static HITS: [AtomicU64; FAILPOINT_NAMES.len()] = [ZERO; FAILPOINT_NAMES.len()];
+static CALLBACK: AtomicPtr<Callback> = AtomicPtr::new(std::ptr::null_mut());
+
+/// Installs (or, with `None`, removes) the process-wide failpoint
+/// callback. A previously installed callback is leaked, since another
+/// thread may still be executing it.
+pub fn set_failpoint_callback(callback: Option<Callback>) {
+    let ptr = match callback {
+        Some(callback) => Box::into_raw(Box::new(callback)),
+        None => std::ptr::null_mut(),
+    };
+    CALLBACK.store(ptr, Ordering::Release);
+}
+
+/// Returns how many times the failpoint with the given ID has been
+/// reached.
+pub fn failpoint_hits(id: usize) -> u64 {
+    HITS[id].load(Ordering::Relaxed)
+}
+
+/// Resets all failpoint hit counters.
+pub fn reset_failpoint_hits() {
+    for hits in HITS.iter() {
+        hits.store(0, Ordering::Relaxed);
+    }
+}
+
+/// Marks a failpoint. Called from instrumented code.
+pub fn failpoint(id: usize) {
+    HITS[id].fetch_add(1, Ordering::Relaxed);
+    let ptr = CALLBACK.load(Ordering::Acquire);
+    if !ptr.is_null() {
+        // SAFETY: non-null pointers stored in CALLBACK come from
+        // Box::into_raw and are never freed.
+        let callback = unsafe { &*ptr };
+        callback(id);
+    }
+}
